@@ -625,7 +625,7 @@ func (c *connection) SendResponseError(from gen.PID, to gen.PID, options gen.Mes
 }
 
 func (c *connection) SendTerminatePID(target gen.PID, reason error) error {
-	if target.Creation != c.peer_creation {
+	if target.Creation != c.core.Creation() {
 		return gen.ErrProcessIncarnation
 	}
 	buf := lib.TakeBuffer()
@@ -698,7 +698,7 @@ func (c *connection) SendTerminateProcessID(target gen.ProcessID, reason error) 
 }
 
 func (c *connection) SendTerminateAlias(target gen.Alias, reason error) error {
-	if target.Creation != c.peer_creation {
+	if target.Creation != c.core.Creation() {
 		return gen.ErrProcessIncarnation
 	}
 	buf := lib.TakeBuffer()
